@@ -22,6 +22,7 @@ impl CompileErrorKind {
             Self::TooManyRegisters => 205,
             Self::TooManyArguments => 206,
             Self::TooManyUpvalues => 211,
+            Self::TooManyGlobals => 213,
             Self::BreakOutsideLoop => 207,
             Self::ContinueOutsideLoop => 208,
             Self::ReturnOutsideFunction => 212,
